@@ -288,6 +288,28 @@ func genCacoBuild(repo string) (string, error) {
 	// Lifetimes (C10, round 3): where the per-Build state is created and what
 	// a Builder holds across Build calls.
 	p.emitLifetimes(&b)
+
+	// osutil.IsRegular / IsDir / Exist: which stat call each makes
+	var ou []string
+	if up, err := loadPkg(filepath.Join(repo, "osutil")); err == nil {
+		for _, fd := range up.allFuncs() {
+			if fd.Body == nil || fd.Recv != nil {
+				continue
+			}
+			ast.Inspect(fd.Body, func(n ast.Node) bool {
+				if c, ok := n.(*ast.CallExpr); ok {
+					if sel, ok := c.Fun.(*ast.SelectorExpr); ok {
+						if id, ok := sel.X.(*ast.Ident); ok && id.Name == "os" &&
+							(sel.Sel.Name == "Stat" || sel.Sel.Name == "Lstat") {
+							ou = append(ou, fmt.Sprintf("(%s, %s)", coqStr("osutil."+fd.Name.Name), coqStr("os."+sel.Sel.Name)))
+						}
+					}
+				}
+				return true
+			})
+		}
+	}
+	fmt.Fprintf(&b, "\nDefinition osutil_stat_calls : list (string * string) :=\n  %s.\n", coqList(ou))
 	return b.String(), nil
 }
 
@@ -473,6 +495,8 @@ func (p *pkg) emitLifetimes(b *strings.Builder) {
 					if id, ok := f.X.(*ast.Ident); ok && id.Name == "os" &&
 						(f.Sel.Name == "Stat" || f.Sel.Name == "Lstat" || f.Sel.Name == "Readlink") {
 						callee = "os." + f.Sel.Name
+					} else if id, ok := f.X.(*ast.Ident); ok && id.Name == "osutil" {
+						callee = "osutil." + f.Sel.Name
 					} else if pkgFuncs[f.Sel.Name] {
 						callee = f.Sel.Name
 					}
